@@ -1,4 +1,5 @@
 import Ecal.Model.Debug
+import Ecal.Gen.C15
 /-!
 # C15 — debugging only observes; every suspended thread can be resumed
 
@@ -542,5 +543,87 @@ theorem observer_only {M : Type} (next : M → Option (Ev × M)) (n : Nat) (m : 
         simp [hk, hc] at hstop
       · simp only [hstop] at hk hc ⊢
         exact ih m' (stepEv r e) hk hc
+
+
+/-! ### the regenerated fact `debugger_is_read_only` and what it gives
+
+`lean/Ecal/Gen/C15.lean` is regenerated on every run by `harness C15 -tool extract`: package
+interpreter is type-checked and every function reachable from `VisitState`, `VisitStepInState`,
+`VisitStepOutState`, `RecordThreadFinished`, `RecordSource` (calls into same-package functions
+followed; the command side — `InjectValue`, `ExtractValue` — is not reachable from there), plus
+the statements of the evaluator that only run with a debugger attached, is scanned for accesses
+to the program's world, classified BY STATIC TYPE. Three-valued: if the source does not
+type-check, an entry point is missing or something is `unresolved`, the lists prove nothing
+(UNKNOWN: evidence note + amplified metamorphic search, no violation); an access outside the
+allowed list REFUTES the fact and breaks `observer_accesses_allowed`. -/
+
+/-- Every access the debugger's evaluator side may make, with its justification:
+* `scope:Parent`, `scope:Name` — navigation / name of a scope (getters of `varsScope`);
+* `scope:ToJSONObject` — the snapshot of a scope's values for `describe` (takes the scope's read
+  lock, marshals copies);
+* `ast:Equals` — sanity comparison of the step-in and step-out call nodes;
+* `ext:fmt.Sprintf[ast]` — the text of that sanity assertion prints the call stack;
+* `debugger:…` — the evaluator hands node, scope and thread id to the debugger interface
+  (`VisitState`, `VisitStepInState`, `VisitStepOutState`) and the provider's mutex table / thread pool
+  references (`SetLockingState`, `SetThreadPool`, stored once, read by `lockstate`).
+NOT allowed (any of these refutes the fact): `scope:SetValue`, `scope:SetLocalValue`, `scope:NewChild`
+(appends a child to the program's scope tree), `scope:Clear`, `scopepkg:*`, any `logger:*`, any
+`runtime:*` (evaluation), `astwrite:*`, `rtwrite:*`, `otherwrite:*`, `pkgvarwrite:*`. -/
+def allowedAccesses : List String :=
+  ["scope:Parent", "scope:Name", "scope:ToJSONObject", "ast:Equals", "ext:fmt.Sprintf[ast]",
+   "debugger:VisitState", "debugger:VisitStepInState", "debugger:VisitStepOutState",
+   "debugger:SetLockingState", "debugger:SetThreadPool"]
+
+/-- **Obligation over the regenerated fact (a), (b), (c).** The evaluator side of the debugger
+touches the program's scopes only through `Parent` / `Name` / `ToJSONObject`, calls no logger
+method, evaluates nothing, and assigns no field of an AST node, a runtime component, any foreign
+struct or a package variable. -/
+theorem observer_accesses_allowed :
+    Ecal.Gen.C15.observerAccesses.all (fun p => allowedAccesses.contains p.2) = true := by decide
+
+/-- **Obligation (d).** The debugger's own fields are written under its write lock; fields of the
+calling thread's interrogation state by that thread (`running` under the condition's lock: the
+handshake above); the one exception is the `lastVisit` time stamp (under the read lock; only
+`StopThreads`' idle wait reads it). -/
+theorem own_writes_locked :
+    Ecal.Gen.C15.ownWrites.all (fun w => w.2.2 == "w" || w.2.2 == "is" ||
+      (w.2.1 == "ecalDebugger.lastVisit" && w.2.2 == "r")) = true := by decide
+
+/-- the program's world as the CODE's debugger can reach it: the evaluator (`next`) and, per access
+kind of the fact, what that access returns (`read`) — a result, not the world -/
+structure World (W O : Type) where
+  next : W → Option (Ev × W)
+  read : String → W → O
+
+/-- the code's visit functions, as far as the fact describes them: debugger data `D` is updated from
+the event and from the results of the accesses in `acc` — nothing else of the world is reachable -/
+def runObserved {W O D : Type} (wd : World W O) (visit : D → Ev → List O → D) (acc : List String) :
+    Nat → W → D → W × D
+  | 0, w, d => (w, d)
+  | n + 1, w, d =>
+    match wd.next w with
+    | none => (w, d)
+    | some (e, w') => runObserved wd visit acc n w' (visit d e (acc.map (wd.read · w)))
+
+/-- **Observer only (code shape).** Let the debugger's evaluator side use the program's world only
+through the accesses listed by the regenerated fact (`Ecal.Gen.C15.observerAccesses`, all of them in
+`allowedAccesses` by `observer_accesses_allowed`), each of which RETURNS an observation. Then for
+every evaluator, every debugger-side logic `visit` (suspensions, commands, snapshots included) the
+world after `n` steps is the world of the plain run.
+What is proved: this implication, and that the code's accesses are exactly the listed ones
+(type-checked extraction, re-done on every run). What is still only TESTED: that `Parent`, `Name`,
+`ToJSONObject`, `Equals` really are read-only (package scope / parser — C05's model of scopes and the
+metamorphic comparison of debugged and plain runs), and that a suspended thread changes nothing
+while it waits. -/
+theorem observer_only_code {W O D : Type} (wd : World W O) (visit : D → Ev → List O → D)
+    (n : Nat) (w : W) (d : D) :
+    (runObserved wd visit (Ecal.Gen.C15.observerAccesses.map (·.2)) n w d).1 = runPlain wd.next n w := by
+  induction n generalizing w d with
+  | zero => rfl
+  | succ n ih =>
+    simp only [runObserved, runPlain]
+    split
+    · rfl
+    · exact ih _ _
 
 end Ecal.Props.C15
